@@ -420,6 +420,8 @@ func init() {
 	// ---- time ----
 	reg(func(c *callCtx) (Value, ctl) { return c.p.timeNow(), ctlRet }, "time.Now")
 	reg(func(c *callCtx) (Value, ctl) { return c.p.tc().BV(0, 64), ctlRet }, "time.runtimeNano", "runtime.nanotime")
+	// "bubbled" makes time.Since/Until take their general path Now().Sub(t), which uses the modelled clock
+	reg(func(c *callCtx) (Value, ctl) { return c.p.tc().True, ctlRet }, "time.runtimeIsBubbled")
 }
 
 // schedPointAfter offers a context switch after a synchronisation operation completed.
